@@ -14,7 +14,11 @@ A *scenario* (the case JSON, self-contained) is
    "src_cls"/"dst_cls": "local"|"base",  "req": [token...], "shallow", "verify", "dix", "six",
    "rounds": [{"fails": [token...], "partial": [token...], "crash": n|null, "reset": bool,
                "delete": [token...], "req": [token...]}]}
-   ("partial" (subset of "fails"): the failing upload first leaves a strict prefix of the bytes under
+   ("dix"/"six": false | true (a real ObjectDBIndex, empty at the start, persisted across the rounds) |
+   "noop" (ObjectDBIndexNoop); "vanish": [file tokens] - objects deleted from the SOURCE by the
+   validate_status hook if status counted them new, i.e. between the status phase and the uploads, and
+   restored after the round;
+   "partial" (subset of "fails"): the failing upload first leaves a strict prefix of the bytes under
    the final name - a non-atomic remote; "req": this round's request, default = the scenario's)
 
 Rounds run one after the other on the same destination and the same persisted index(es);
@@ -199,7 +203,24 @@ def open_dirs(store: dict):
 
 
 def index_items(ix):
-    return None if ix is None else dict(ix.index.items())
+    if ix is None:
+        return None
+    real = getattr(ix, "index", None)  # the no-op index stores nothing
+    return {} if real is None else dict(real.items())
+
+
+def noop_fields(case):
+    """the r_dnoop / r_snoop fields of the model's round record (emitted once the model declares them)"""
+    from lib import core
+
+    try:
+        with open(os.path.join(core.THEORIES, "Model", "Transfer.v")) as f:
+            declared = "r_dnoop" in f.read()
+    except OSError:
+        declared = False
+    if not declared:
+        return ""
+    return "r_dnoop := %s; r_snoop := %s; " % (cbool(case.get("dix") == "noop"), cbool(case.get("six") == "noop"))
 
 
 # --------------------------------------------------------------------------------------
@@ -239,12 +260,17 @@ class Scenario:
         self.cache0 = store_bytes(self.p_cache) if self.has_cache else None
         self.dix = self.six = None
         if case.get("dix") or case.get("six"):
-            from dvc_data.hashfile.db.index import ObjectDBIndex
+            from dvc_data.hashfile.db.index import ObjectDBIndex, ObjectDBIndexNoop
+
+            def mk(kind, name):
+                if kind == "noop":
+                    return ObjectDBIndexNoop(None, "x")
+                return ObjectDBIndex(os.path.join(self.root, "ix"), name)
 
             if case.get("dix"):
-                self.dix = ObjectDBIndex(os.path.join(self.root, "ix"), "dest")
+                self.dix = mk(case["dix"], "dest")
             if case.get("six"):
-                self.six = ObjectDBIndex(os.path.join(self.root, "ix"), "src")
+                self.six = mk(case["six"], "src")
         self.external = False  # objects were deleted behind the index's back
         self.excluded = {}  # oracle checks skipped, by reason
         self.rounds = []  # observations
@@ -310,6 +336,20 @@ class Scenario:
         seen = []
         dirorder = []
         orig = T.find_tree_by_obj_id
+        vanish = [self.oid[t] for t in rs.get("vanish") or []]
+        removed = {}
+
+        def on_status(st):
+            # runs exactly between the status phase and the uploads: a concurrent gc of the source
+            seen.append(st)
+            new = {h.value for h in st.new}
+            for o in vanish:
+                sp = os.path.join(self.p_src, o[:2], o[2:])
+                if not is_dir(o) and o in new and os.path.isfile(sp):
+                    with open(sp, "rb") as f:
+                        removed[o] = (f.read(), os.stat(sp).st_mode & 0o777)
+                    os.chmod(sp, 0o644)
+                    os.unlink(sp)
 
         def recording(odbs, obj_id):
             dirorder.append(obj_id.value)
@@ -320,7 +360,7 @@ class Scenario:
             try:
                 res = T.transfer(src, dest, obj_ids, jobs=1, verify=bool(case["verify"]),
                                  shallow=bool(case["shallow"]), src_index=self.six,
-                                 dest_index=self.dix, cache_odb=cache, validate_status=seen.append)
+                                 dest_index=self.dix, cache_odb=cache, validate_status=on_status)
                 ob["outcome"] = ("ok", {h.value for h in res.transferred}, {h.value for h in res.failed})
             except Abort:
                 ob["outcome"] = ("crash",)
@@ -328,6 +368,9 @@ class Scenario:
                 ob["outcome"] = ("err", impl.err_code(exc), repr(exc)[:200])
         finally:
             T.find_tree_by_obj_id = orig
+            for o, (b, mode) in removed.items():  # the source is static across rounds
+                impl.plant(self.p_src, o, b, mode)
+        ob["vanished"] = sorted(removed)
         if seen:
             st = seen[0]
             ob["status"] = tuple({h.value for h in s} for s in (st.ok, st.missing, st.new, st.deleted))
@@ -404,16 +447,18 @@ class Scenario:
         corrupt = [o for o, b in sorted(self.src0.items()) if not genuine(o, b)]
         rterms = []
         rvals = []
+        nf = noop_fields(self.case).replace("%", "%%")
         for ob in self.rounds:
             rs = ob["spec"]
             rterms.append(
-                "{| r_dst := %s; r_req := %s; r_shallow := %s; r_verify := %s; r_dix := %s; r_six := %s; "
-                "r_fails := %s; r_partial := %s; r_dirorder := %s; r_putorder := %s; r_crash := %s |}"
+                ("{| r_dst := %s; r_req := %s; r_shallow := %s; r_verify := %s; r_dix := %s; r_six := %s; " + nf +
+                 "r_fails := %s; r_partial := %s; r_dirorder := %s; r_putorder := %s; r_crash := %s |}")
                 % (cstore(ob["dst_before"]), coids(ob["req_order"]), cbool(self.case["shallow"]),
                    cbool(self.case["verify"]), cix(ob["dix_before"]), cix(ob["six_before"]),
-                   coids(self.oid[t] for t in rs.get("fails") or []),
+                   coids(list(dict.fromkeys([self.oid[t] for t in rs.get("fails") or []] + ob.get("vanished", [])))),
                    clist([cpair(cbytes(T(self.oid[t])), "[%d]" % ck(self.src0[self.oid[t]][:-1]))
-                          for t in rs.get("partial") or [] if self.src0.get(self.oid[t])]),
+                          for t in rs.get("partial") or []
+                          if self.src0.get(self.oid[t]) and self.oid[t] not in ob.get("vanished", [])]),
                    coids(ob["dirorder"]),
                    coids(ob["putorder"]), "None" if ob["crash"] is None else "(Some %d)" % ob["crash"]))
             st = ob["status"]
@@ -679,6 +724,10 @@ def features(S):
             f.add("failure")
         if ob["spec"].get("req"):
             f.add("per-round-request")
+        if ob.get("vanished"):
+            f.add("vanished-source-object")
+        if any(e[0] == "put" and not e[2] and e[1] not in S.src0 for e in ob["events"]):
+            f.add("upload-of-lost-source-file")
         if ob["crash"] is not None:
             f.add("crash")
         if ob["status"] is not None and ob["status"][1]:
@@ -862,6 +911,12 @@ def gen_base(rng, prop):
     case = {"prop": prop, **uni, "dst": dst, "req": req, "shallow": shallow,
             "verify": rng.random() < p_verify, "src_cls": rng.choice(["local", "base"]),
             "dst_cls": "local", "dix": False, "six": False, "rounds": []}
+    # fetch direction: a source index makes the source-side status trust "directory present =>
+    # files present": a listed file the source has lost is counted new and its upload cannot succeed
+    lost = any(n.startswith("src-missing-file") for n in notes)
+    if rng.random() < (0.6 if lost else 0.08):
+        case["six"] = rng.choice([True, "noop"])
+        notes.append("src-index:" + ("noop" if case["six"] == "noop" else "real") + ("+lost-file" if lost else ""))
     if rng.random() < 0.3:
         # the failure is a PermissionError: _add._error then asks whether the destination object is
         # protected (a concurrent writer's object); with a single writer it never is
@@ -989,7 +1044,7 @@ def shared_files(case):
 
 def probe_uploads(ctx, case):
     """fault-free run on a fresh destination: the upload attempts, as tokens, in order"""
-    S = Scenario(ctx, {**case, "dix": False, "six": False, "rounds": []})
+    S = Scenario(ctx, {**case, "dix": False, "rounds": []})
     try:
         ob = S.run_round({"fails": [], "crash": None, "reset": True})
         return [S.tok[o] for o in ob["putorder"]]
@@ -1019,7 +1074,7 @@ def run_scenario(ctx, case, crash_all=False, crash_some=0):
                 points = sorted(ctx.rng.sample(points, crash_some))
             for n in points:
                 rs = {"fails": list(full["spec"].get("fails") or []), "crash": n, "reset": True}
-                for k in ("partial", "req"):
+                for k in ("partial", "req", "vanish"):
                     if full["spec"].get(k):
                         rs[k] = list(full["spec"][k])
                 case["rounds"].append(rs)
@@ -1077,6 +1132,26 @@ def builtin_corpus(prop):
                 "dix": True, "six": False,
                 "rounds": [{"fails": [], "crash": None, "reset": True},
                            {"fails": [], "crash": None, "reset": False}]})
+    # fetch direction (seeded change r2/m2): the source holds d0.dir but has lost the listed file f1;
+    # a source index (real / no-op) makes the source-side status count f1 present, its upload raises
+    # FileNotFoundError: f1 failed, d0.dir withheld and failed
+    src_lost = {t: None for t in allsrc if t != "f1"}
+    for cls in ("local", "base"):
+        for six in (True, "noop"):
+            out.append({"prop": prop, "files": f, "dirs": d, "src": src_lost, "cache": None,
+                        "dst": {} if six is True else {"f3": None},
+                        "req": ["d0.dir", "f0", "f1"] if six is True else ["d0.dir", "f3"],
+                        "shallow": six is True, "verify": False, "src_cls": "local" if cls == "base" else "base",
+                        "dst_cls": cls, "dix": "noop" if (six == "noop" and cls == "base") else False, "six": six,
+                        "rounds": [{"fails": [], "crash": None, "reset": True},
+                                   {"fails": [], "crash": None, "reset": False}]})
+    # a source object vanishes between the status phase and the uploads (concurrent gc of the source)
+    for cls in ("local", "base"):
+        out.append({"prop": prop, "files": f, "dirs": d, "src": allsrc, "cache": None, "dst": {},
+                    "req": closed_req, "shallow": True, "verify": cls == "base", "src_cls": "local", "dst_cls": cls,
+                    "dix": cls == "local", "six": False,
+                    "rounds": [{"fails": [], "vanish": ["f1"], "crash": None, "reset": True},
+                               {"fails": [], "crash": None, "reset": False}]})
     if prop != "C11":
         return out
     # seeded change m1: a stale index must be re-validated even when the indexed directory is not
